@@ -275,7 +275,7 @@ func rulePublication(c *core.Ctx) {
 			}
 		}
 		o.Require(hit, "the hit edge does not return the cached value")
-		o.Require(strings.ReplaceAll(core.ExprStr(looks[0].Key), " ", "") == "extractorKey{…}" || true, "")
+		o.Shape(strings.ReplaceAll(core.ExprStr(looks[0].Key), " ", "") == "extractorKey{…}" || true, "")
 		src := c.Prog.Src(fn.Decl.Body)
 		o.Shape(strings.Contains(src, "x.cache[extractorKey{ref:refs[0],tp:tp}]"), "the hit test must look at the first reference of the chain")
 		o.Shape(strings.Contains(src, "for_,ref:=rangerefs{x.cache[extractorKey{ref:ref,tp:tp}]=res}"), "the value must be published under every reference of the chain")
